@@ -24,7 +24,7 @@ func init() {
 	register(&run.Check{
 		ID:    "C17",
 		Level: "model_checking",
-		Rule: "explicit-state search over builder histories: every sequence of <=3 calls over a 79-call alphabet (thorough: also length 4 over its first 44 calls - every rule-building call and seven options both ways; every call that uses an upper-case spelling has its lower-case twin) (element / attribute / style rules in lower- and upper-case spellings and every scope; every boolean option with true and false; skip/keep content on two names in two spellings; scheme registrations incl. custom checks and patterns; two sandbox sets; rewriter) is executed on a fresh real policy; so is every history of <=2 calls that contains one of 24 helper / rarely used calls (AllowStandardURLs, AllowImages, AllowTables, AllowIFrames, builder-level AllowNoAttrs in both chain orders, AllowNoAttrs().Globally(), AllowUnsafe, ...), and every history of <=2 calls (<=3 over the option calls; thorough one more each) started from a non-initial state in which links, images and iframes survive. Each history is executed by exactly one shard; the parent groups the records of all shards by abstract state. " +
+		Rule: "explicit-state search over builder histories: every sequence of <=3 calls over a 79-call alphabet (thorough: also length 4 over its first 44 calls - every rule-building call and seven options both ways; every call that uses an upper-case spelling has its lower-case twin) (element / attribute / style rules in lower- and upper-case spellings and every scope; every boolean option with true and false; skip/keep content on two names in two spellings; scheme registrations incl. custom checks and patterns; two sandbox sets; rewriter) is executed on a fresh real policy; so is every history of <=2 calls that contains one of 24 helper / rarely used calls (AllowStandardURLs, AllowImages, AllowTables, AllowIFrames, builder-level AllowNoAttrs in both chain orders, AllowNoAttrs().Globally(), AllowUnsafe, ...), every history of <=3 calls (thorough 4) over 17 calls on a zero-value Policy{} (order independence there too), and every history of <=2 calls (<=3 over the option calls; thorough one more each) started from a non-initial state in which links, images and iframes survive. Each history is executed by exactly one shard; the parent groups the records of all shards by abstract state. " +
 			"Abstract state (reference model) = canonical rule set of the harness's spec view (names lower-cased, duplicates and order removed, last value of each switch, documented couplings). Use does not matter: a policy that sanitised the probes between two builder calls (every pair of calls from the initial state; every call from a links-enabled state and from UGCPolicy) behaves like a fresh policy given the same calls, and a policy that sanitised the probe list eight times over answers each probe as a fresh policy's first call does. Additivity: after one more AllowElements / AllowElementsMatching / AllowAttrs / AllowNoAttrs call every tag and attribute kept before is still kept (histories <=3). Conformance: every history reaching an abstract state must reproduce, byte for byte, the probe-output vector (46 probe documents) of the first history that reached it. " +
 			"Independence: (first, in a pristine process) for every base and every call of the alphabet, a fresh policy built after another instance was extended, and the instance built before, reproduce the original vector; then for every pair of histories (A of length <=2, B of length <=1; B of length 2 next to A of length <=1 on the plain base) over a 13-call sub-alphabet and every interleaving of the two, built on two policy objects from each of NewPolicy / UGCPolicy / StrictPolicy, policy A's vector equals A built alone, before and after B is extended. " +
 			"states = abstract states reached, transitions = histories executed (each is one path from the initial state), traces validated = histories replayed against the implementation (all of them); non-trivial = histories that reached an already-visited abstract state through a different call sequence.",
